@@ -57,8 +57,20 @@ func contractServes(fc *FuncContract, prop string) bool {
 			return true
 		}
 	}
+	for _, gs := range fc.guards {
+		for _, g := range gs {
+			if hasProp(g.spec.props, prop) {
+				return true
+			}
+		}
+	}
 	for _, lc := range fc.loops {
 		for _, c := range lc.invariants {
+			if hasProp(c.props, prop) {
+				return true
+			}
+		}
+		for _, c := range lc.steps {
 			if hasProp(c.props, prop) {
 				return true
 			}
@@ -233,10 +245,16 @@ func runCheck(o checkOpts) checkOutcome {
 		}
 		r.obligs = keep
 	}
-	solveAll(results, dir, timeout, runtime.NumCPU(), cross)
+	known := loadKnownFindings(filepath.Join(verifRoot(), "known_findings.txt"))
+	knownNames := map[string]bool{}
+	for k := range known {
+		if strings.HasPrefix(k, o.property+"|") {
+			knownNames[strings.TrimPrefix(k, o.property+"|")] = true
+		}
+	}
+	solveAll(results, dir, timeout, runtime.NumCPU(), cross, knownNames)
 	tSolve := time.Since(t0).Seconds() - tLoad - tGen
 
-	known := loadKnownFindings(filepath.Join(verifRoot(), "known_findings.txt"))
 	exit := bindExit
 	var all []*Oblig
 	bySolver := map[string]int{}
